@@ -2,6 +2,7 @@ package main
 
 import (
 	"fmt"
+	"os"
 	"math"
 	"go/constant"
 	"go/token"
@@ -141,6 +142,7 @@ type Interp struct {
 	tail     []pendingOb
 	batchDepth int
 	curHarness bool
+	fairSelect bool
 	assumedSet map[*Term]bool
 	trivial  int
 }
@@ -1110,6 +1112,8 @@ func (a *Act) exec(instr ssa.Instruction) {
 		a.set(x, IterV{obj: a.alloc(IterData{m: m.obj, n: n, pos: BV(8, 0)})})
 	case *ssa.Next:
 		a.set(x, a.next(x))
+	case *ssa.Select:
+		a.set(x, a.selectOp(x))
 	case *ssa.DebugRef:
 	default:
 		panic(unsupported(fmt.Sprintf("instruction %T", instr)))
@@ -1429,7 +1433,70 @@ func (a *Act) lookup(x *ssa.Lookup) Value {
 	return val
 }
 
+// iteLeaves collects the distinct constant leaves of an ite-tree (ok=false if a leaf is not constant).
+func iteLeaves(t *Term, max int) ([]*Term, bool) {
+	seen := map[*Term]bool{}
+	var out []*Term
+	var walk func(x *Term) bool
+	walk = func(x *Term) bool {
+		if x.IsConst() {
+			if !seen[x] {
+				seen[x] = true
+				out = append(out, x)
+			}
+			return len(out) <= max
+		}
+		if x.op == "ite" {
+			return walk(x.args[1]) && walk(x.args[2])
+		}
+		return false
+	}
+	if !walk(t) {
+		return nil, false
+	}
+	return out, true
+}
+
+func strByID(id uint64) (string, bool) {
+	for s, i := range strIntern {
+		if i == id || (id == 0 && s == "") {
+			return s, true
+		}
+	}
+	return "", false
+}
+
 func (a *Act) mapUpdate(obj int, key, v Value) {
+	// a string key that is a choice among constants updates the constant-key slots under the
+	// respective conditions, so that map slots keep concrete keys
+	if sk, ok := key.(StrV); ok && !sk.conc && sk.id.op == "ite" {
+		if leaves, ok := iteLeaves(sk.id, 8); ok {
+			var ks []StrV
+			all := true
+			for _, l := range leaves {
+				str, ok := strByID(l.val)
+				if !ok {
+					all = false
+					break
+				}
+				ks = append(ks, ConcStr(str))
+			}
+			if all {
+				for i, l := range leaves {
+					a.mapUpdateG(obj, ks[i], v, Eq(sk.id, l))
+				}
+				return
+			}
+		}
+	}
+	a.mapUpdateG(obj, key, v, True)
+}
+
+// mapUpdateG performs m[key] = v under condition cond.
+func (a *Act) mapUpdateG(obj int, key, v Value, cond *Term) {
+	if cond.IsFalse() {
+		return
+	}
 	a.recordMap(obj, true)
 	md := a.st.heap[obj].v.(MapData)
 	ne := make([]MapEntry, len(md.entries))
@@ -1443,14 +1510,18 @@ func (a *Act) mapUpdate(obj int, key, v Value) {
 			continue
 		}
 		c := And(e.present, eq)
-		ne[i].val = iteVal(c, v, e.val)
+		ne[i].val = iteVal(And(c, cond), v, e.val)
 		hit = Or(hit, c)
 	}
 	if same >= 0 {
-		ne[same].val = v
-		ne[same].present = Or(ne[same].present, Not(hit))
+		if ne[same].present.IsFalse() {
+			ne[same].val = v
+		} else {
+			ne[same].val = iteVal(cond, v, ne[same].val)
+		}
+		ne[same].present = Or(ne[same].present, And(cond, Not(hit)))
 	} else if !hit.IsTrue() {
-		ne = append(ne, MapEntry{key: key, present: Not(hit), val: v})
+		ne = append(ne, MapEntry{key: key, present: And(cond, Not(hit)), val: v})
 	}
 	a.st.heap[obj] = nv(MapData{entries: ne})
 }
@@ -1774,7 +1845,8 @@ func (a *Act) builtin(name string, args []Value) Value {
 		}
 		a.mayPanic(anyClosed, "close of closed channel")
 		for _, al := range c.alts {
-			a.st.heap[al.obj] = nv(ChanData{closed: Ite(al.g, True, a.st.heap[al.obj].v.(ChanData).closed)})
+			cd := a.st.heap[al.obj].v.(ChanData)
+			a.st.heap[al.obj] = nv(ChanData{closed: Ite(al.g, True, cd.closed), ticker: cd.ticker})
 		}
 		return nil
 	case "append":
@@ -1864,4 +1936,100 @@ func sortedKeys(m map[string]int) []string {
 	}
 	sort.Strings(ks)
 	return ks
+}
+
+// blockingPoint: the call is about to block (select / cond.Wait).  It must hold no lock (it would
+// delay every other call), and other goroutines run meanwhile: the harness hook verifOnBlock, if
+// any, havocs the shared state (pattern P3).
+func (a *Act) blockingPoint(what string) {
+	in := a.in
+	held := False
+	for k := range a.st.locks {
+		w, r := a.lockState(k)
+		held = Or(held, w, Not(Eq(r, BV(8, 0))))
+	}
+	in.obligation(a.g, "deadlock", what+" while holding a lock in "+a.fn.String(), held)
+	in.events = append(in.events, "block: "+what+" in "+a.fn.Name())
+	if hook := in.harnessPkg.Func("verifOnBlock"); hook != nil && !in.inHook {
+		in.inHook = true
+		a.callFunc(FuncV{fn: hook}, nil)
+		in.inHook = false
+	}
+}
+
+// selectOp models select over receive cases: a closed channel is ready, a ticker channel may be
+// ready, an open ordinary channel never is (single-goroutine harness; senders are not modelled).
+func (a *Act) selectOp(x *ssa.Select) Value {
+	in := a.in
+	for _, st := range x.States {
+		if st.Dir != types.RecvOnly {
+			panic(unsupported("select with a send case"))
+		}
+	}
+	if x.Blocking {
+		a.blockingPoint("select")
+	}
+	idx := in.fresh("select", BVS(64))
+	anyReady := False
+	closedReady := False
+	pickFirstClosed := True // used when the harness asks for a fair resolution
+	var conds []*Term
+	for i, st := range x.States {
+		ch := a.get(st.Chan).(PtrV)
+		ready := False
+		closedHere := False
+		for _, al := range ch.alts {
+			cd := a.st.heap[al.obj].v.(ChanData)
+			if cd.ticker {
+				ready = Or(ready, And(al.g, in.fresh("tick", BoolSort)))
+			}
+			ready = Or(ready, And(al.g, cd.closed))
+			closedHere = Or(closedHere, And(al.g, cd.closed))
+		}
+		conds = append(conds, And(Eq(idx, BV(64, uint64(i))), ready))
+		anyReady = Or(anyReady, ready)
+		_ = pickFirstClosed
+		closedReady = Or(closedReady, closedHere)
+	}
+	if !x.Blocking {
+		conds = append(conds, Eq(idx, BV(64, ^uint64(0))))
+		anyReady = True
+	}
+	canEver := closedReady
+	for _, st := range x.States {
+		for _, al := range a.get(st.Chan).(PtrV).alts {
+			if a.st.heap[al.obj].v.(ChanData).ticker {
+				canEver = Or(canEver, al.g)
+			}
+		}
+	}
+	if !x.Blocking {
+		canEver = True
+	}
+	a.deadlockIf(Not(canEver), "select with no case that can ever become ready")
+	if os.Getenv("VERIF_DEBUG_SELECT") != "" {
+		fmt.Printf("select: guard-sat=%v closedReady-sat=%v fair=%v\n", in.sat(a.g), in.sat(a.g, closedReady), in.fairSelect)
+	}
+	in.assume(Implies(a.g, Or(conds...)))
+	if in.fairSelect {
+		// fairness: a case whose channel is closed is eventually chosen; resolve towards the first one
+		first := False
+		none := True
+		for i, st := range x.States {
+			ch := a.get(st.Chan).(PtrV)
+			cl := False
+			for _, al := range ch.alts {
+				cl = Or(cl, And(al.g, a.st.heap[al.obj].v.(ChanData).closed))
+			}
+			first = Or(first, And(none, cl, Eq(idx, BV(64, uint64(i)))))
+			none = And(none, Not(cl))
+		}
+		in.assume(Implies(And(a.g, closedReady), first))
+	}
+	res := TupleV{idx, False}
+	for _, st := range x.States {
+		ct := st.Chan.Type().Underlying().(*types.Chan)
+		res = append(res, in.zeroVal(ct.Elem()))
+	}
+	return res
 }
